@@ -133,6 +133,129 @@ fn mix_val(i: u64) -> u64 {
     (z ^ (z >> 29)).wrapping_mul(0xBF58_476D_1CE4_E5B9) >> 16
 }
 
+/// Ladder keys produced lazily, with an exact size hint (what `extend_iter` sees).
+struct LadderIter {
+    state: u64,
+    i: u64,
+    n: u64,
+}
+impl Iterator for LadderIter {
+    type Item = (Vec<u8>, u64);
+    fn next(&mut self) -> Option<(Vec<u8>, u64)> {
+        if self.i >= self.n {
+            return None;
+        }
+        let mut k = Vec::with_capacity(16);
+        let v = ladder_key(&mut self.state, self.i, &mut k);
+        self.i += 1;
+        Some((k, v))
+    }
+    fn size_hint(&self) -> (usize, Option<usize>) {
+        let r = (self.n - self.i) as usize;
+        (r, Some(r))
+    }
+}
+impl ExactSizeIterator for LadderIter {}
+
+/// The same keys as a user-written streamer (what `extend_stream` sees).
+struct LadderStream {
+    state: u64,
+    i: u64,
+    n: u64,
+    buf: Vec<u8>,
+}
+impl<'a> fst::Streamer<'a> for LadderStream {
+    type Item = (&'a [u8], raw::Output);
+    fn next(&'a mut self) -> Option<(&'a [u8], raw::Output)> {
+        if self.i >= self.n {
+            return None;
+        }
+        let v = ladder_key(&mut self.state, self.i, &mut self.buf);
+        self.i += 1;
+        Some((&self.buf, raw::Output::new(v)))
+    }
+}
+struct U64Stream(LadderStream);
+impl<'a> fst::Streamer<'a> for U64Stream {
+    type Item = (&'a [u8], u64);
+    fn next(&'a mut self) -> Option<(&'a [u8], u64)> {
+        self.0.next().map(|(k, v)| (k, v.value()))
+    }
+}
+struct KeyStream(LadderStream);
+impl<'a> fst::Streamer<'a> for KeyStream {
+    type Item = &'a [u8];
+    fn next(&'a mut self) -> Option<&'a [u8]> {
+        self.0.next().map(|(k, _)| k)
+    }
+}
+
+/// The ladder through ONE bulk call. mode: 0 raw extend_iter, 1 raw
+/// extend_stream, 2 MapBuilder::extend_iter, 3 MapBuilder::extend_stream,
+/// 4 SetBuilder::extend_iter, 5 SetBuilder::extend_stream (2..5: default cache).
+/// Peak during the call, heap held after the call and after a second, empty
+/// bulk call must respect the bound (no term in N).
+pub fn run_bulk_ladder(geom: Geom, n: u64, mode: u8) -> Result<Trace, String> {
+    guard(|| {
+        let geom = if mode >= 2 { (10_000, 2) } else { geom };
+        let x0 = alloc::live();
+        enum B {
+            R(raw::Builder<std::io::Sink>),
+            M(fst::MapBuilder<std::io::Sink>),
+            S(fst::SetBuilder<std::io::Sink>),
+        }
+        let mut b = match mode {
+            0 | 1 => B::R(if geom == (10_000, 2) { raw::Builder::new_type(std::io::sink(), 0) } else { raw::Builder::verif_new_with_registry(std::io::sink(), 0, geom.0, geom.1) }.map_err(|e| format!("{:?}", e))?),
+            2 | 3 => B::M(fst::MapBuilder::new(std::io::sink()).map_err(|e| format!("{:?}", e))?),
+            _ => B::S(fst::SetBuilder::new(std::io::sink()).map_err(|e| format!("{:?}", e))?),
+        };
+        let after_new = alloc::live() - x0;
+        let bmax = bound(after_new, geom, 4, 16) + 256;
+        let name = ["raw extend_iter", "raw extend_stream", "MapBuilder::extend_iter", "MapBuilder::extend_stream", "SetBuilder::extend_iter", "SetBuilder::extend_stream"][mode as usize];
+        let mut max_live = after_new;
+        for (round, count) in [(0, n), (1, 0)] {
+            alloc::reset_peak();
+            let it = || LadderIter { state: 0, i: 0, n: count };
+            let stm = || LadderStream { state: 0, i: 0, n: count, buf: Vec::with_capacity(16) };
+            let r = match (&mut b, mode) {
+                (B::R(b), 0) => b.extend_iter(it().map(|(k, v)| (k, raw::Output::new(v)))),
+                (B::R(b), _) => b.extend_stream(stm()),
+                (B::M(b), 2) => b.extend_iter(it()),
+                (B::M(b), _) => b.extend_stream(U64Stream(stm())),
+                (B::S(b), 4) => b.extend_iter(it().map(|(k, _)| k)),
+                (B::S(b), _) => b.extend_stream(KeyStream(stm())),
+            };
+            r.map_err(|e| format!("{} failed: {:?}", name, e))?;
+            let pk = alloc::peak() - x0;
+            let held = alloc::live() - x0;
+            max_live = max_live.max(pk);
+            if pk > bmax || held > bmax {
+                return Err(format!(
+                    "{} of {} items (call {}): peak live heap {} bytes, {} held after the call (key length 16, fan-out <= 4, cache {}x{}); bound without any term in the number of items is {} (heap after new: {})",
+                    name, count, round, pk, held, geom.0, geom.1, bmax, after_new
+                ));
+            }
+        }
+        alloc::reset_peak();
+        match b {
+            B::R(b) => b.finish(),
+            B::M(b) => b.finish(),
+            B::S(b) => b.finish(),
+        }
+        .map_err(|e| format!("finish failed: {:?}", e))?;
+        let pk = alloc::peak() - x0;
+        if pk > bmax {
+            return Err(format!("{}: live heap {} during finish exceeds the bound {}", name, pk, bmax));
+        }
+        let after_finish = alloc::live() - x0;
+        if after_finish != 0 {
+            return Err(format!("{}: {} bytes still live after finish", name, after_finish));
+        }
+        Ok(Trace { after_new, max_live, after_finish, inserts: n })
+    })
+    .and_then(|x| x)
+}
+
 pub fn run_ladder(geom: Geom, is_set: bool, n: u64) -> Result<Trace, String> {
     let mut state = 0u64;
     run_history(geom, 4, 16, is_set, n, &mut |i, out| ladder_key(&mut state, i, out))
@@ -196,6 +319,10 @@ pub fn run_small(geom: Geom, is_set: bool, kvs: &[Kv]) -> Result<Trace, String> 
 pub fn replay(case: &Value) -> Result<String, String> {
     let geom = geom_from(&case["geom"]);
     let is_set = case["set"].as_bool().unwrap();
+    if let Some(mode) = case["bulk_mode"].as_u64() {
+        let n = case["ladder_n"].as_u64().unwrap();
+        return run_bulk_ladder(geom, n, mode as u8).map(|t| format!("peak live {} bytes for N={}", t.max_live, n));
+    }
     if let Some(n) = case["wide_prefixes"].as_u64() {
         return run_wide_ladder_w(geom, is_set, n, case["wide_width"].as_u64().unwrap_or(40)).map(|t| format!("peak live {} bytes for {} wide nodes", t.max_live, n));
     }
@@ -212,7 +339,7 @@ pub fn replay(case: &Value) -> Result<String, String> {
 pub fn plan(tier: Tier) -> Plan {
     let mut p = Plan::new("C13", "exploration");
     let thorough = tier.thorough();
-    p.rule = "counting allocator with per-thread counters; the builder streams to a discarding sink. (1) exhaustive: under the tiny cache geometries 1x1, 1x2, 2x2, 3x3 (cache saturated after a handful of inserts, i.e. the regime 'evicting on every miss' is reachable) every subset of U_ab3 as set and map, and every prefix of the sorted universes {a,b}^<=6 and {a,b,c,d}^<=4: after (and at the peak during) EVERY insert and finish the builder's live heap <= B(rows,cols,F,L) = heap_after_new + 2*(cells*(max(4,2F)*24+32) + (L+2)*(max(4,2F)*24+32) + [2(L+2)*80 if L+2>64] + 2L) + 4096, which has no term in the number of keys; after finish everything is freed. (2) finite ladder (not exhaustive): 16-byte keys over {a..d} with irregular gaps and non-shareable values, sets and maps, N in {1e4,1e5,2e5,4e5} (thorough: 1e6,4e6,1e7), geometries 1x1, 2x2, 100x2 and the default 10000x2, two ladders with varying key lengths (alternating 16/28-byte keys; keys that are proper prefixes of their successors), and a wide-node ladder (250..5000 (thorough 100000) distinct nodes of fan-out 40, 100, 256 and of widths cycling through 33..64, the node form with an index table): peak live <= B for every N and, for geometries with <= 200 cells, |peak(N_{i+1}) - peak(N_i)| <= 1 KiB. non-trivial = histories with >= 8 keys".into();
+    p.rule = "counting allocator with per-thread counters; the builder streams to a discarding sink. (1) exhaustive: under the tiny cache geometries 1x1, 1x2, 2x2, 3x3 (cache saturated after a handful of inserts, i.e. the regime 'evicting on every miss' is reachable) every subset of U_ab3 as set and map, and every prefix of the sorted universes {a,b}^<=6 and {a,b,c,d}^<=4: after (and at the peak during) EVERY insert and finish the builder's live heap <= B(rows,cols,F,L) = heap_after_new + 2*(cells*(max(4,2F)*24+32) + (L+2)*(max(4,2F)*24+32) + [2(L+2)*80 if L+2>64] + 2L) + 4096, which has no term in the number of keys; after finish everything is freed. (2) finite ladder (not exhaustive): 16-byte keys over {a..d} with irregular gaps and non-shareable values, sets and maps, N in {1e4,1e5,2e5,4e5} (thorough: 1e6,4e6,1e7), geometries 1x1, 2x2, 100x2 and the default 10000x2, two ladders with varying key lengths (alternating 16/28-byte keys; keys that are proper prefixes of their successors), and a wide-node ladder (250..5000 (thorough 100000) distinct nodes of fan-out 40, 100, 256 and of widths cycling through 33..64, the node form with an index table), and the fixed ladder through ONE bulk call (raw/Map/Set extend_iter with an exact size hint and extend_stream, N up to 400000, thorough 2 million; a second, empty bulk call afterwards): peak live <= B for every N and, for geometries with <= 200 cells, |peak(N_{i+1}) - peak(N_i)| <= 1 KiB. non-trivial = histories with >= 8 keys".into();
     p.assumptions = vec![
         "'for all N' beyond the ladder is not decided by a bounded exploration; the ladder is a finite family and is reported as such".into(),
         "heap attributable to the builder = sum over its API calls of the change of the thread's live bytes (harness allocations are outside the measured calls)".into(),
@@ -273,6 +400,48 @@ pub fn plan(tier: Tier) -> Plan {
                             st.sample(|| json!({"universe": name, "keys": kvs.len(), "geom": [g.0, g.1], "heap_after_new": t.after_new, "max_live": t.max_live, "bound": bound(t.after_new, *g, alpha.len(), maxlen)}));
                         }
                         Err(msg) => rep.violation(format!("universe {} {:?} set={}", name, g, is_set), msg, json!({"kvs": kvs_json(&kvs), "geom": [g.0, g.1], "set": is_set})),
+                    }
+                }
+            }
+        }));
+    }
+    // the ladder through one bulk call (iterators with exact size hints, streamers)
+    {
+        let bulk_ns: Vec<u64> = if thorough { vec![10_000, 100_000, 400_000, 2_000_000] } else { vec![10_000, 100_000, 400_000] };
+        let bulk_peaks: Arc<Mutex<BTreeMap<(Geom, u8, u64), i64>>> = Arc::new(Mutex::new(BTreeMap::new()));
+        for mode in 0..6u8 {
+            let geoms: Vec<Geom> = if mode < 2 { vec![(1, 1), (2, 2), (100, 2), (10_000, 2)] } else { vec![(10_000, 2)] };
+            for g in geoms {
+                for &n in &bulk_ns {
+                    let bulk_peaks = bulk_peaks.clone();
+                    p.units.push(unit("bulk-call-ladder-(finite-family)", format!("bulk ladder mode {} {:?} N={}", mode, g, n), move |st, rep| {
+                        st.evals += 1;
+                        st.states += n + 2;
+                        st.transitions += n + 2;
+                        st.nontrivial += 1;
+                        match run_bulk_ladder(g, n, mode) {
+                            Ok(t) => {
+                                st.count("bulk_ladder_points", 1);
+                                bulk_peaks.lock().unwrap().insert((g, mode, n), t.max_live);
+                            }
+                            Err(msg) => rep.violation(format!("bulk ladder mode {} {:?} N={}", mode, g, n), msg, json!({"bulk_mode": mode, "ladder_n": n, "geom": [g.0, g.1], "set": mode >= 4})),
+                        }
+                    }));
+                }
+            }
+        }
+        let bulk_ns2 = bulk_ns.clone();
+        p.finish_extra.push(Box::new(move |st, rep| {
+            let pk = bulk_peaks.lock().unwrap();
+            st.samples.push(json!({"bulk_ladder_peak_live": pk.iter().map(|((g, m, n), v)| json!({"geom": [g.0, g.1], "mode": m, "N": n, "bytes": v})).collect::<Vec<_>>()}));
+            for g in [(1usize, 1usize), (2, 2), (100, 2)] {
+                for mode in 0..2u8 {
+                    for w in bulk_ns2.windows(2) {
+                        if let (Some(a), Some(b)) = (pk.get(&(g, mode, w[0])), pk.get(&(g, mode, w[1]))) {
+                            if (a - b).abs() > 1024 {
+                                rep.violation(format!("bulk ladder growth mode {} {:?} N={}..{}", mode, g, w[0], w[1]), format!("peak live heap of a bulk call is {} bytes for N={} but {} for N={} (cache {}x{})", a, w[0], b, w[1], g.0, g.1), json!({"bulk_mode": mode, "ladder_n": w[1], "geom": [g.0, g.1], "set": false}));
+                            }
+                        }
                     }
                 }
             }
